@@ -22,7 +22,7 @@ OBLIGATIONS += [
        replace=('urcu_memb_synchronize_rcu', 'set_thread_cpu_affinity', 'urcu_memb_register_thread', 'urcu_memb_unregister_thread'),
        unwind=5, min_covers=2, checks=CKL, timeout=600, functions=('call_rcu_thread',),
        desc='helper pause branch: unregisters as a reader before announcing PAUSED; while parked it is no reader and touches neither queue nor callbacks; drops PAUSED only after PAUSE was cleared, re-registers; then runs the callbacks queued at fork time exactly once'),
-    Ob(name='C16.O5.call_rcu_after_fork_child', harness=H, entry='h_after_fork_child', defines=D, native=True, unwind=6, min_covers=3, checks=CKL, timeout=600, tier='B',
+    Ob(name='C16.O5.call_rcu_after_fork_child', harness=H, entry='h_after_fork_child', defines=D, native=True, unwind=6, min_covers=4, checks=CKL, timeout=600, tier='B',
        bound='<= 2 inherited helpers with <= 1 queued callback each', functions=('call_rcu_after_fork_child', '_call_rcu_data_free', 'get_default_call_rcu_data', 'call_rcu_data_init'),
        desc='call_rcu_after_fork_child: mutex released; hook once; a new default helper with its own thread; per-CPU table / thread pointer dropped; inherited helpers marked STOPPED, never waited for nor joined, their callbacks moved exactly once to the new default helper, unlinked and freed once; never used => no-op'),
 ]
